@@ -93,14 +93,24 @@ def molfile_order_sessions(rng, tier):
     import textgen
     ss = []
     for i in range(40 if tier == "quick" else 600):
-        M = textgen.abstract_molecule(rng, 8, coords=["0", "1.5", "-2.25", "3.125"])
+        M = textgen.abstract_molecule(rng, 10 if i % 3 else 14, coords=["0", "1.5", "-2.25", "3.125"])
+        if i % 3 == 0:
+            for a in M["atoms"]:            # many radical centres on different elements
+                if rng.random() < 0.7:
+                    a["rad"] = 2
         nat = len(M["atoms"])
         S = Session(f"molfile-order-{i}")
         ids, perms = [], []
+        v2 = rng.random() < 0.4 and textgen.fits_v2000(M) and all(a["rad"] in (0, 2) or True for a in M["atoms"])
         for v in range(3):
             perm = gen.random_perm(rng, nat)
-            lines, _ = textgen.render_v3000(M, rng, perm=perm, opts={"indices": rng.choice(["shuffled", "gappy", "identity"])})
-            ids.append(S.read(lines, "V3000", "C07", floats=textgen.floats_of(M)))
+            if v2:
+                # V2000 listings: many radical / charge / isotope entries spread over several property lines
+                lines, _ = textgen.render_v2000(M, rng, perm=perm, opts={"group": rng.choice([1, 2, 3, 8]), "mode": rng.choice(["lines", "stale"])})
+                ids.append(S.read(lines, "V2000", "C08", floats=textgen.floats_of(M)))
+            else:
+                lines, _ = textgen.render_v3000(M, rng, perm=perm, opts={"indices": rng.choice(["shuffled", "gappy", "identity"])})
+                ids.append(S.read(lines, "V3000", "C07", floats=textgen.floats_of(M)))
             perms.append(perm)
         for x in ids:
             if x:
@@ -271,6 +281,15 @@ def c02(out, tier, rng):
     out.extra["spec_to_code_inputs"] = len(items)
     ss += nearmiss_sessions(rng, tier)
     ss += mutate_sessions(rng, tier)
+    # CFI twins: same size, same degrees, indistinguishable by refinement, not isomorphic
+    cfi = gen.cfi_graphs(80 if tier == "quick" else 220)
+    S = Session("cfi-twins")
+    for name, g in cfi:
+        o = S.input(g)
+        c = S.canon(o, spy=False)
+        if c:
+            S.ser(c)
+    ss.append(S)
     count_sessions(out, ss, "c02")
     # C02 is decided by two clauses: a shared string between molecules the specification can tell apart, and
     # (beyond brute force) the witness check: the molecule must be isomorphic to what the string states
@@ -452,6 +471,10 @@ def c12(out, tier, rng):
     ss += pool_sessions(rng, tier, k=2, feedback=True, repeat=True, nonidentity=True, parse_back=False, n_random=40)
     ss += mutate_sessions(rng, tier, n=20)
     ss += history_sessions(rng, tier)
+    scr, r = drivers.script_sessions(rng, tier)          # call histories generated by TLC's simulator from spec/Calls.tla
+    out.states += r.distinct; out.transitions += r.generated
+    out.extra["tlc_generated_call_scripts"] = len(scr)
+    ss += scr
     count_sessions(out, ss, "c12")
     v = validate_sessions(out, ss, "C12:")
     # "both steps can be repeated on the same object with identical results": the registry clauses of C01 / C04 inside a
